@@ -185,6 +185,16 @@ func c20MakeBody(c *core.Ctx) c20Body {
 		at := c.Rng.Intn(pos - len(nm))
 		copy(b[at:], nm)
 	}
+	if c.Rng.Intn(6) == 0 {
+		// The beginning of a marker directly in front of the real one (a
+		// scanner that skips ahead after a failed partial match must not jump
+		// over the '<' that follows).
+		pre := []string{"<", "<<", "</", "<s", "<scri", "</hea", "<lin", "<<<"}[c.Rng.Intn(8)]
+		if b := buf.Bytes(); pos >= len(pre) {
+			copy(b[pos-len(pre):], c20RandCase(c, pre))
+			desc += ",partial-marker-directly-before"
+		}
+	}
 	n := 1 + c.Rng.Intn(4)
 	for i := 0; i < n; i++ {
 		buf.WriteString(c20RandCase(c, c20Markers[c.Rng.Intn(len(c20Markers))]))
